@@ -35,6 +35,10 @@ pub enum Fault {
     SectionDrop { idx: usize },
     SectionDup { idx: usize },
     SectionSwap { a: usize, b: usize },
+    /// an EMPTY section (id, size 1, count 0) written in front of section `at` (a duplicate, an out-of-order
+    /// section, or a count that disagrees with a later section: what only whole-module validation catches)
+    #[serde(alias = "EmptySection")]
+    EmptySectionInsert { id: u8, at: usize },
     /// a construct of an unsupported proposal grafted in: 0 tag section, 1 GC struct type, 2 component header
     Graft { kind: u8 },
     /// an edit inside function body `func` of the code section (what a buggy producer writes):
@@ -64,6 +68,7 @@ impl Fault {
             Fault::SectionDrop { .. } => "section_drop",
             Fault::SectionDup { .. } => "section_dup",
             Fault::SectionSwap { .. } => "section_swap",
+            Fault::EmptySectionInsert { .. } => "empty_section_insert",
             Fault::Graft { .. } => "feature_graft",
             Fault::BodyEdit { tag, .. } => match tag {
                 1 => "overlong_leb_in_body",
@@ -201,6 +206,16 @@ fn apply_inner(b: &mut Vec<u8>, f: &Fault) -> bool {
             b.extend_from_slice(&copy);
             b.extend_from_slice(&tail);
             true
+        }
+        Fault::EmptySectionInsert { id, at } => {
+            let Some(secs) = wasmsplit::split(b) else { return false };
+            match wasmsplit::insert_section(b, (*at).min(secs.len()), &[*id, 1, 0]) {
+                Some(nb) => {
+                    *b = nb;
+                    true
+                }
+                None => false,
+            }
         }
         Fault::SectionSwap { a, b: bb } => {
             let Some(secs) = wasmsplit::split(b) else { return false };
@@ -498,9 +513,10 @@ pub fn draw(rng: &mut Rng, b: &[u8], others: &[Vec<u8>], enabled: u32) -> Option
                 if s.is_empty() {
                     continue;
                 }
-                match rng.below(3) {
+                match rng.below(4) {
                     0 => Fault::SectionDrop { idx: rng.usize_below(s.len()) },
                     1 => Fault::SectionDup { idx: rng.usize_below(s.len()) },
+                    2 => Fault::EmptySectionInsert { id: 1 + rng.below(12) as u8, at: rng.usize_below(s.len() + 1) },
                     _ => Fault::SectionSwap { a: rng.usize_below(s.len()), b: rng.usize_below(s.len()) },
                 }
             }
